@@ -307,7 +307,14 @@ def run_property(prop, tier, seed, t0):
             solver_out = ""
             for r in res:
                 if r["ob"].oid == oid and r.get("weak_sat") and not solver_out:
-                    solver_out = "model of the instantiated VC (%s):\n%s" % (r.get("weak_solver"), r.get("weak_output", ""))
+                    try:
+                        txt = discharge.script_for(eng, r["ob"], keep_quantifiers=False, extra_terms=True, unfold=True)
+                        mr = solve.solve("(set-option :produce-models true)\n" + txt + "(get-model)\n", timeout_s=20, solvers=["cvc5-1.0.3"])
+                        model = mr.output
+                    except Exception:
+                        model = r.get("weak_output", "")
+                    solver_out = ("obligation proved on the unchanged tree is now satisfiable (hypotheses kept, quantified ones instantiated at the "
+                                  "goal's terms, recursive specs unfolded); model from cvc5:\n%s" % model)
                 if r["ob"].oid == oid and r["status"] == "refuted":
                     solver_out = r["output"]
                     try:
